@@ -139,6 +139,10 @@ Definition eigen (meth : method_arg) (nsig : option nsig_arg) (thr : option F) (
   | inr ns => inr (eigen_reorder NFFT (pseudo meth tw NFFT P S Vh ns), S)
   end.
 
+(* music(X, IP, NSIG, NFFT, threshold, criteria) and ev(...): eigen() with the method fixed *)
+Definition music := eigen MMusic.
+Definition ev := eigen MEv.
+
 (* ---------------- pmusic.__call__ / pev.__call__ ---------------- *)
 (* tools.centerdc_2_twosided = numpy.fft.ifftshift *)
 Definition ifftshift (l : list F) : list F := let h := (length l / 2)%nat in skipn h l ++ firstn h l.
